@@ -8,7 +8,7 @@ the DAG: one node entry per graph node in graph order (synthetic ones virtual an
 their declared type, name, verbose name, generic flag), one edge entry per graph edge with source / target / id, the type
 table = the set of types of the nodes, JSON round trip, and the DAG left untouched.
 
-Bound: 17 templates x 4 decorations of the node classes; node names free of '->' (colliding edge ids for such names are a
+Bound: 17 templates x 5 decorations of the node classes; node names free of '->' (colliding edge ids for such names are a
 recorded known finding).
 
 usage: /venv/bin/python bounded/viewer.py [--json FILE]
@@ -43,7 +43,7 @@ import warnings                                                            # noq
 logging.disable(logging.CRITICAL)
 warnings.simplefilter('ignore')
 
-DECORATIONS = ('plain', 'user-types', 'untyped-and-verbose', 'generic')
+DECORATIONS = ('plain', 'user-types', 'untyped-and-verbose', 'generic', 'two-generic-siblings')
 BUILTIN_PREFIXES = ('processor', 'datasource', 'feature', 'ml_model', 'switch', 'input_one_of', 'generic')
 
 
@@ -149,6 +149,27 @@ def main():
                     base = m.cls[out]
                     m.cls[out] = build_node(base, node_name=f'{tag}_generic_out', class_name=f'Generic{tag}Out',
                                             attrs={'verbose_name': 'A generic output'})
+                if how == 'two-generic-siblings':
+                    # two generic nodes made from one base class, with their own names, both consumed by a new output node
+                    from ml_pipeline_engine.node import ProcessorBase
+                    from ml_pipeline_engine.dag_builders.annotation.marks import Input
+                    base = m.cls[out]
+                    g1 = build_node(base, node_name=f'{tag}_first', class_name=f'Generic{tag}First', attrs={'verbose_name': 'First sibling'})
+                    g2 = build_node(base, node_name=f'{tag}_second', class_name=f'Generic{tag}Second', attrs={'verbose_name': 'Second sibling'})
+
+                    # the new output class has to live in a real file as well (the viewer reads source locations)
+                    import importlib.util
+                    fin_path = os.path.join(root, f'bounded_viewer_fin_{tag}.py')
+                    with open(fin_path, 'w') as f:
+                        f.write('from ml_pipeline_engine.node import ProcessorBase\n\n\n'
+                                f'class Fin(ProcessorBase):\n    """fin"""\n    name = \'{tag}_fin\'\n\n'
+                                '    async def process(self, *, a, b):\n        return 0\n')
+                    spec_ = importlib.util.spec_from_file_location(f'bounded_viewer_fin_{tag}', fin_path)
+                    mod_ = importlib.util.module_from_spec(spec_)
+                    sys.modules[spec_.name] = mod_
+                    spec_.loader.exec_module(mod_)
+                    mod_.Fin.process.__annotations__ = {'a': Input(g1), 'b': Input(g2), 'return': int}
+                    m.cls[out] = mod_.Fin
                 dag = build_dag(input_node=m.cls[inp], output_node=m.cls[out])
                 before = (copy.deepcopy(dict(dag.graph.nodes(data=True))), list(dag.graph.edges(data=True)), dict(dag.node_map))
                 cfg = GraphConfigImpl(dag).generate(name='bounded')
@@ -204,8 +225,8 @@ def main():
                                      expected='the DAG is not modified'))
     import shutil
     shutil.rmtree(root, ignore_errors=True)
-    result = dict(harness='bounded/viewer.py', bound='17 templates x 4 decorations of the node classes (plain, user-defined types incl. one '
-                  'starting like a built-in one, untyped / verbose names, generic output node with its own names)', cases=n_cases,
+    result = dict(harness='bounded/viewer.py', bound='17 templates x 5 decorations of the node classes (plain, user-defined types incl. one '
+                  'starting like a built-in one, untyped / verbose names, generic output node with its own names, two generic siblings of one base)', cases=n_cases,
                   failures=failures)
     if '--json' in sys.argv:
         with open(sys.argv[sys.argv.index('--json') + 1], 'w') as f:
